@@ -2,6 +2,7 @@ mod checks;
 mod runner;
 mod sim;
 mod simtest;
+mod tracelog;
 
 use runner::{run_check, RunArgs, Tier};
 use std::path::PathBuf;
@@ -19,6 +20,7 @@ fn main() {
     if args.len() < 2 {
         usage();
     }
+    tracelog::install_from_env();
     let id = args[1].clone();
     if id == "simscenario" {
         std::process::exit(simtest::run_file(&args[2], args.iter().any(|a| a == "--history")));
